@@ -100,6 +100,19 @@ def fault_universe(tier, seed=0):
     l3 = list(U.level3('quick', seed, coarse=True))
     step3 = 10 if tier == 'quick' else 3
     states += l3[seed % step3::step3]
+    # unions whose largest arm is a struct with padding in front of a narrow optional (the union trusts the arm's
+    # static size), alone, inside a struct and as array elements
+    reg2 = dict(U.BASE_HELPERS)
+    reg2['P1'] = S.Struct('P1', [S.M('k', 'u8'), S.M('o', 'u8', S.OPT)])
+    reg2['P2'] = S.Struct('P2', [S.M('k', 'u16'), S.M('o', 'u16', S.OPT), S.M('t', 'u8')])
+    reg2['P3'] = S.Struct('P3', [S.M('k', 'u8'), S.M('o', 'u64', S.OPT)])
+    for i, p in enumerate(('P1', 'P2', 'P3')):
+        un = 'UP%d' % i
+        reg2[un] = S.Union(un, [S.Arm(1, 'u8', 'a'), S.Arm(2, p, 'p')])
+        states.append(U.mk_state('union', ((1, 'u8'), (2, p)), reg2))
+        states.append(U.mk_state('struct', (('plain', un), ('plain', 'u8')), reg2))
+        states.append(U.mk_state('struct', (('dynamic', un),), reg2))
+        states.append(U.mk_state('struct', (('opt', un), ('plain', 'u16')), reg2))
     seen, out = set(), []
     for st in states:
         if st.key not in seen:
